@@ -67,6 +67,7 @@ def cases(seed, tier):
             "kind": "assetdet",
             "spec": rng.choice(["AD_HDF5_SWMR_SLICE", "AD_TIFF", "hdf5", "UNKNOWN_SPEC"]),
             "frame_kwarg": rng.random() < 0.3,
+            "resource_per_point": rng.random() < 0.3,
             "resource_kwargs": rng.choice([{"path": "/entry/data", "frame_per_point": 1}, {"dataset": "/x"}, {}, {"template": "%s%s_%d.tiff", "filename": "f"}]),
             "trigger_delay": rng.choice([0.0, 0.01]),
         }
